@@ -123,7 +123,7 @@ def real_potential(rng):
     """(description, callable, reference derivative) - built-in forms, compositions and derivative-less callables"""
     import atsim.potentials as ap
     from atsim.potentials import potentialforms as pf
-    kind = rng.choice(["buck", "lj", "morse", "bornmayer", "coul", "plus", "product", "lambda", "poly", "multi", "buck4"])
+    kind = rng.choice(["buck", "lj", "morse", "bornmayer", "coul", "plus", "product", "lambda", "poly", "multi", "buck4", "expspline", "expspline"])
     A = round(rng.uniform(100, 3000), 2)
     rho = round(rng.uniform(0.15, 0.5), 3)
     C = round(rng.uniform(0, 80), 2)
@@ -150,6 +150,13 @@ def real_potential(rng):
         s = round(rng.uniform(0.5, 6.0), 3) + 0.00037  # boundary never on a grid point (C08 owns boundaries)
         f = ap.create_Multi_Range_Potential_Form(
             ap.Multi_Range_Defn(">", 0.0, pf.buck(A, rho, C)), ap.Multi_Range_Defn(">=", s, pf.polynomial(0.5, -0.02)))
+    elif kind == "expspline":
+        # repulsive core joined to an attractive tail: end value <= 0 forces the spline's upward shift (C != 0)
+        rd = round(rng.uniform(0.8, 1.3), 2) + 0.00037
+        ra = rd + round(rng.uniform(0.6, 1.2), 2)
+        tail = pf.buck(0.0, 1.0, round(rng.uniform(5, 60), 1)) if rng.random() < 0.7 else pf.buck(A, rho, C)
+        f = ap.SplinePotential(pf.bornmayer(A, rho), tail, rd, ra)
+        rm = None
     else:
         rd = round(rng.uniform(1.0, 1.6), 2) + 0.00037
         rm = rd + round(rng.uniform(0.4, 0.8), 2)
@@ -160,6 +167,8 @@ def real_potential(rng):
         bounds = [s]
     elif kind == "buck4":
         bounds = [rd, rm, ra]
+    elif kind == "expspline":
+        bounds = [rd, ra]
 
     def dref(r, f=f, bounds=bounds):
         """independent derivative of the energy callable; None within the stencil of a range/spline boundary"""
